@@ -37,6 +37,9 @@ type Mutant struct {
 	More []Edit
 	// PatchFile: a unified diff applied in memory instead of Old/New (seeded/ and benign/ patches)
 	PatchFile string
+	// KnownLimitation: a benign refactoring the rules are known not to see through yet (listed in
+	// DESIGN.md Appendix A as open); reported, but does not fail the thorough run
+	KnownLimitation bool
 }
 
 type Edit struct {
@@ -138,8 +141,10 @@ func runSelfTest(prop, repo string, r *Run) map[string]interface{} {
 			switch {
 			case code == 3:
 				rs.status, rs.detail = "skipped", firstLine(out)
-			case code == 2 || code < 0:
+			case code < 0 || (code == 2 && (strings.Contains(string(out), "load failed") || strings.Contains(string(out), "checker panic"))):
 				rs.status, rs.detail = "broken", "variant could not be analysed (does it compile?): "+lastLines(out, 3)
+			case code == 2 && m.Kind == "benign":
+				rs.status, rs.detail = "noisy", "the checker could not decide (exit 2): "+lastLines(out, 2)
 			case m.Kind == "breaking":
 				hit := m.Expect == "*" && len(keys) > 0
 				for _, k := range keys {
@@ -179,7 +184,11 @@ func runSelfTest(prop, repo string, r *Run) map[string]interface{} {
 		case "missed":
 			r.Failures = append(r.Failures, fmt.Sprintf("SELFTEST checker insensitive: breaking variant %s not detected (%s)", rs.m.Name, rs.detail))
 		case "noisy":
-			r.Failures = append(r.Failures, fmt.Sprintf("SELFTEST checker over-sensitive: benign variant %s reported (%s)", rs.m.Name, rs.detail))
+			if rs.m.KnownLimitation {
+				fmt.Printf("SELFTEST-KNOWN-LIMITATION %s: the rules do not see through this refactoring (%s)\n", rs.m.Name, rs.detail)
+			} else {
+				r.Failures = append(r.Failures, fmt.Sprintf("SELFTEST checker over-sensitive: benign variant %s reported (%s)", rs.m.Name, rs.detail))
+			}
 		case "broken":
 			r.Failures = append(r.Failures, fmt.Sprintf("SELFTEST variant %s: %s", rs.m.Name, rs.detail))
 		case "skipped":
